@@ -1,14 +1,12 @@
 package service
 
 import (
-	"bytes"
 	"context"
 	"fmt"
 	"github.com/VictoriaMetrics/fastcache"
 	"github.com/metrico/qryn/reader/logql/logql_transpiler_v2/shared"
 	"github.com/metrico/qryn/reader/model"
 	"github.com/metrico/qryn/reader/plugins"
-	"github.com/metrico/qryn/reader/utils/cityhash102"
 	"github.com/metrico/qryn/reader/utils/dbVersion"
 	"github.com/metrico/qryn/reader/utils/logger"
 	"github.com/metrico/qryn/reader/utils/tables"
@@ -254,26 +252,30 @@ func (c *CLokiQuerier) Select(sortSeries bool, hints *storage.SelectHints,
 // ReshuffleSeries merges the series that carry the same label set under different fingerprints into
 // the first of them and returns the series without the merged duplicates.
 func (c *CLokiQuerier) ReshuffleSeries(series []*model.Series) []*model.Series {
-	seriesMap := make(map[uint64]*model.Series, len(series)*2)
+	seriesMap := make(map[string]*model.Series, len(series)*2)
 	res := make([]*model.Series, 0, len(series))
 	for _, ent := range series {
 		labels := ent.LabelsGetter.Get(ent.Fp)
-		strLabels := make([][]byte, labels.Len())
-		for i, lbl := range labels {
-			strLabels[i] = []byte(lbl.Name + "=" + lbl.Value)
+		// every name and value quoted: two different label sets never share a key
+		// ({a="b c=d"} and {a="b", c="d"} both read a=b c=d when joined unquoted)
+		var key strings.Builder
+		for _, lbl := range labels {
+			key.WriteString(strconv.Quote(lbl.Name))
+			key.WriteByte('=')
+			key.WriteString(strconv.Quote(lbl.Value))
+			key.WriteByte(' ')
 		}
-		str := bytes.Join(strLabels, []byte(" "))
-		_fp := cityhash102.CityHash64(str, uint32(len(str)))
-		if chunk, ok := seriesMap[_fp]; ok {
+		str := key.String()
+		if chunk, ok := seriesMap[str]; ok {
 			logger.Error(fmt.Printf("Warning: double labels set found [%d - %d]: %s",
-				chunk.Fp, ent.Fp, string(str)))
+				chunk.Fp, ent.Fp, str))
 			chunk.Samples = append(chunk.Samples, ent.Samples...)
 			sort.Slice(chunk.Samples, func(i, j int) bool {
 				return chunk.Samples[i].TimestampMs < chunk.Samples[j].TimestampMs
 			})
 
 		} else {
-			seriesMap[_fp] = ent
+			seriesMap[str] = ent
 			res = append(res, ent)
 		}
 	}
